@@ -1,1 +1,68 @@
-From Ont Require Import Model.Codec.
+(** C18 — Primitive binary codec round-trips, is canonical and never reads out of bounds.
+    Model: Model/Codec.v (ZeroCopySource / ZeroCopySink / common/serialization), tied to the code by
+    the C18 correspondence on every run. *)
+From Coq Require Import List Bool NArith ZArith.
+Import ListNotations.
+From Ont Require Import Lib.Bytes Model.Codec Proofs.Codec.
+Local Open Scope N_scope.
+
+(** (1) Round trip. Whatever a write operation appended — at any position [pre] of any buffer,
+    followed by anything [post] — the matching read returns exactly the written value, no eof,
+    not irregular, the writer's size, and leaves the offset just after the written bytes.
+    [wf_wop] only says the value fits the Go type of the operation. *)
+Theorem c18_roundtrip : forall (o : wop) (pre post : bytes),
+  wf_wop o = true ->
+  N.of_nat (length (pre ++ run_wop o ++ post)) < two64 ->
+  run_rop (at_ pre (run_wop o) post) (fst (readback o)) =
+  (snd (readback o), after_ pre (run_wop o) post).
+Proof. exact readback_ok. Qed.
+Print Assumptions c18_roundtrip.
+
+(** (2) Canonicity. Whenever NextVarUint returns a value (no eof) from any well-formed buffer at
+    any offset, it reports irregular = false exactly when the bytes it consumed are the encoder's
+    encoding of that value; the reported size is the number of bytes consumed. *)
+Theorem c18_varuint_canonical : forall (s : source) (v sz : N) (irr : bool) (s' : source),
+  src_ok s -> wf_bytes (buf s) = true ->
+  next_varuint s = (v, sz, irr, false, s') ->
+  let consumed := slice (buf s) (off s) (off s' - off s) in
+  N.of_nat (length consumed) = sz /\ v < two64 /\ (irr = false <-> consumed = write_varuint v).
+Proof. exact varuint_canonical. Qed.
+Print Assumptions c18_varuint_canonical.
+
+(** (3) Safety. For every buffer and every sequence of read operations (including NextBytes/Skip
+    with arbitrary uint64 counts), each operation leaves the buffer unchanged and the offset
+    inside [old offset, length]; results are values or eof/irregular flags (the model is total,
+    and it is the correspondence that shows the code does not panic where the model does not). *)
+Theorem c18_reads_stay_in_bounds : forall (ops : list rop) (s : source),
+  src_ok s -> positions_ok (src_pos s) (N.of_nat (length (buf s))) (run_script s ops).
+Proof. exact run_script_safe. Qed.
+Print Assumptions c18_reads_stay_in_bounds.
+
+Theorem c18_read_step_safe : forall (s : source) (o : rop),
+  src_ok s -> step_safe s (snd (run_rop s o)).
+Proof. exact run_rop_safe. Qed.
+Print Assumptions c18_read_step_safe.
+
+(** (4) common/serialization (io.Reader based): round trips for the variable-length forms. *)
+Theorem c18_ser_varuint_roundtrip : forall (v : N) (rest : bytes),
+  v < two64 -> ser_read_varuint (ser_write_varuint v ++ rest) 0 = inl (v, rest).
+Proof. exact ser_varuint_roundtrip. Qed.
+Print Assumptions c18_ser_varuint_roundtrip.
+
+Theorem c18_ser_varbytes_roundtrip : forall (d rest : bytes),
+  N.of_nat (length d) < two64 -> ser_read_varbytes (ser_write_varbytes d ++ rest) = inl (d, rest).
+Proof. exact ser_varbytes_roundtrip. Qed.
+Print Assumptions c18_ser_varbytes_roundtrip.
+
+(** Non-vacuity: a non-minimal encoding is flagged, a minimal one is not, and a concrete write
+    script reads back. *)
+Example c18_nonvacuous_irregular :
+  next_varuint (src_new [253; 5; 0; 7]) = (5, 3, true, false, mkSrc [253; 5; 0; 7] 3) /\
+  next_varuint (src_new [253; 253; 0; 7]) = (253, 3, false, false, mkSrc [253; 253; 0; 7] 3).
+Proof. split; vm_compute; reflexivity. Qed.
+
+Example c18_nonvacuous_roundtrip :
+  wf_wop (WVarBytes [1; 2; 3]) = true /\
+  run_rop (at_ [9; 9] (run_wop (WVarBytes [1; 2; 3])) [8]) RVarBytes =
+  (VVarBytes [1; 2; 3] 4 false false, after_ [9; 9] (run_wop (WVarBytes [1; 2; 3])) [8]).
+Proof. split; vm_compute; reflexivity. Qed.
